@@ -766,7 +766,8 @@ fn decompress_udp(
         &iphc_repr.dst_addr,
         &ChecksumCapabilities::ignored(),
     )?;
-    if udp_repr.header_len() + payload.len() > buffer.len() {
+    // (the room needed is that of the uncompressed header, which is what gets written)
+    if udp_repr.0.header_len() + payload.len() > buffer.len() {
         return Err(Error);
     }
     let udp_payload_len = if let Some(total_len) = total_len {
